@@ -76,11 +76,19 @@ func ParseDuration(s string) (Duration, error) {
 	// ([0-9]+)(d|h|m|s|ms) ...
 	for i < len(s) && unitI < len(unitOrder) {
 		if unicode.IsDigit(rune(s[i])) {
+			// value carries the sign of the duration so that the most negative duration is representable.
 			digit := int64(s[i] - '0')
-			if value > (math.MaxInt64-digit)/10 {
-				return Duration{}, fmt.Errorf("%w: overflow", errDuration)
+			if negative > 0 {
+				if value > (math.MaxInt64-digit)/10 {
+					return Duration{}, fmt.Errorf("%w: overflow", errDuration)
+				}
+				value = value*10 + digit
+			} else {
+				if value < (math.MinInt64+digit)/10 {
+					return Duration{}, fmt.Errorf("%w: overflow", errDuration)
+				}
+				value = value*10 - digit
 			}
-			value = value*10 + digit
 			hasValue = true
 			i++
 		} else if s[i] == 'd' || s[i] == 'h' || s[i] == 'm' || s[i] == 's' {
@@ -109,11 +117,11 @@ func ParseDuration(s string) (Duration, error) {
 			}
 
 			millis := unitToMillis[unit]
-			if millis > 0 && value > math.MaxInt64/millis {
+			if value > math.MaxInt64/millis || value < math.MinInt64/millis {
 				return Duration{}, fmt.Errorf("%w: overflow", errDuration)
 			}
 			product := value * millis
-			if total > math.MaxInt64-product {
+			if (negative > 0 && total > math.MaxInt64-product) || (negative < 0 && total < math.MinInt64-product) {
 				return Duration{}, fmt.Errorf("%w: overflow", errDuration)
 			}
 			total = total + product
@@ -135,7 +143,7 @@ func ParseDuration(s string) (Duration, error) {
 		return Duration{}, fmt.Errorf("%w: invalid duration", errDuration)
 	}
 
-	return Duration{value: negative * total}, nil
+	return Duration{value: total}, nil
 }
 
 // Equal returns true if the input represents the same duration
@@ -176,42 +184,43 @@ func (d Duration) String() string {
 		return "0ms"
 	}
 
-	remaining := d.value
+	// Work on the magnitude as a uint64 so that the most negative duration does not overflow.
+	remaining := uint64(d.value)
 	if d.value < 0 {
-		remaining = -d.value
+		remaining = -remaining
 		res.WriteByte('-')
 	}
 
-	days := remaining / consts.MillisPerDay
+	days := remaining / uint64(consts.MillisPerDay)
 	if days > 0 {
-		res.WriteString(strconv.FormatInt(days, 10))
+		res.WriteString(strconv.FormatUint(days, 10))
 		res.WriteByte('d')
 	}
-	remaining %= consts.MillisPerDay
+	remaining %= uint64(consts.MillisPerDay)
 
-	hours := remaining / consts.MillisPerHour
+	hours := remaining / uint64(consts.MillisPerHour)
 	if hours > 0 {
-		res.WriteString(strconv.FormatInt(hours, 10))
+		res.WriteString(strconv.FormatUint(hours, 10))
 		res.WriteByte('h')
 	}
-	remaining %= consts.MillisPerHour
+	remaining %= uint64(consts.MillisPerHour)
 
-	minutes := remaining / consts.MillisPerMinute
+	minutes := remaining / uint64(consts.MillisPerMinute)
 	if minutes > 0 {
-		res.WriteString(strconv.FormatInt(minutes, 10))
+		res.WriteString(strconv.FormatUint(minutes, 10))
 		res.WriteByte('m')
 	}
-	remaining %= consts.MillisPerMinute
+	remaining %= uint64(consts.MillisPerMinute)
 
-	seconds := remaining / consts.MillisPerSecond
+	seconds := remaining / uint64(consts.MillisPerSecond)
 	if seconds > 0 {
-		res.WriteString(strconv.FormatInt(seconds, 10))
+		res.WriteString(strconv.FormatUint(seconds, 10))
 		res.WriteByte('s')
 	}
-	remaining %= consts.MillisPerSecond
+	remaining %= uint64(consts.MillisPerSecond)
 
 	if remaining > 0 {
-		res.WriteString(strconv.FormatInt(remaining, 10))
+		res.WriteString(strconv.FormatUint(remaining, 10))
 		res.WriteString("ms")
 	}
 
